@@ -5,6 +5,9 @@ sequentially (`Stable`) and it inverts the writer's encoder exactly (`Exact`); s
 of an encoding is an I/O error, never a value.
 -/
 import Shp.Lemmas.ShortRead
+import Shp.Lemmas.TruncIdx
+import Shp.Lemmas.Shrinks
+import Shp.Lemmas.ReadAll
 import Shp.Lemmas.ReadAll
 import Shp.Lemmas.StableAll
 namespace Shp.C13
@@ -247,5 +250,186 @@ theorem truncated_file_header (ss : List Shape) (htot : 50 + totalWords ss < 214
 
 /-- non-vacuity: cutting a two-record stream in the middle of the second record keeps one record -/
 example : wholeCount [Shape.point .xy Pt.default, Shape.point .xy Pt.default] 40 = 1 := by decide
+
+/-! ### foreign layouts: a cut record is an I/O error whatever produced it -/
+
+/-- for ANY decoder with the sequential-source discipline: if the run on the full input succeeded
+and consumed more than the first `bs.length` bytes, the run on those bytes alone is an I/O error
+(it cannot succeed, fail otherwise, or panic) -/
+theorem cut_run_is_io {α : Type} (d : Dec α) (hd : Dec.Stable d) (bs ext : Bytes) (a : α) (rest : Bytes)
+    (hfull : d (bs ++ ext) = .ok a rest) (hcons : rest.length < ext.length) : d bs = .err .io := by
+  rcases hd bs ext with h | h
+  · exact h
+  · rw [hfull] at h
+    cases hb : d bs with
+    | ok a' r' =>
+      rw [hb] at h
+      simp only [Res.extend, Res.ok.injEq] at h
+      have := congrArg List.length h.2
+      simp only [List.length_append] at this
+      omega
+    | err e => rw [hb] at h; simp [Res.extend] at h
+    | panic s => rw [hb] at h; simp [Res.extend] at h
+
+/-- hence, for a record ANY index entry points at (whatever wrote it, wherever it sits): reading it
+from a source cut strictly inside it yields the I/O error — never a shape, never another error -/
+theorem cut_record_is_io (o : Orient) (tg : Target) (data : Bytes) (e : IndexEntry) (s : Shape)
+    (hr : RecordAt o tg data e s) (t : Nat) (h1 : (2 * e.offset).toNat ≤ t)
+    (h2 : ∀ w : Int, ∀ rest : Bytes, readOneShape o tg (data.drop (2 * e.offset).toNat) = .ok (w, s) rest →
+      t < data.length - rest.length) :
+    readOneShape o tg ((data.take t).drop (2 * e.offset).toNat) = .err .io := by
+  obtain ⟨_, w, rest, hread, _, hlen⟩ := hr
+  have ht := h2 w rest hread
+  have hsplit : data.drop (2 * e.offset).toNat =
+      (data.take t).drop (2 * e.offset).toNat ++ data.drop t := by
+    have : data = data.take t ++ data.drop t := (List.take_append_drop t data).symm
+    conv => lhs; rw [this]
+    rw [List.drop_append_of_le_length (by rw [List.length_take]; omega)]
+  rw [hsplit] at hread
+  apply cut_run_is_io (readOneShape o tg) (readOneShape_stable o tg) _ _ _ _ hread
+  simp only [List.length_drop]
+  omega
+
+/-! ### truncation of a file in ANY layout, read with its index -/
+
+/-- what reading entry `e` of `data` gives (the decoder's own result, as a reader outcome) -/
+def entryOut (o : Orient) (tg : Target) (data : Bytes) (e : IndexEntry) : ROut :=
+  match readOneShape o tg (data.drop (2 * e.offset).toNat) with
+  | .ok (_, s) _ => .shape s
+  | .err e => .err e
+  | .panic s => .panic s
+
+/-- a record some index entry points at, seen through a source cut at ANY length `t`: it decodes to
+the same shape (and is again a record the entry points at, in the cut source) or it is the I/O
+error: nothing else — no other shape, no other error, no panic -/
+theorem truncated_entry (o : Orient) (tg : Target) (data : Bytes) (e : IndexEntry) (s : Shape)
+    (hr : RecordAt o tg data e s) (t : Nat) (ht : t ≤ data.length) :
+    (entryOut o tg (data.take t) e = .shape s ∧ RecordAt o tg (data.take t) e s) ∨
+    (entryOut o tg (data.take t) e = .err .io ∧
+      readOneShape o tg ((data.take t).drop (2 * e.offset).toNat) = .err .io) := by
+  obtain ⟨hoff, w, rest, hread, hw, hlen⟩ := hr
+  let off := (2 * e.offset).toNat
+  have hsplit : data.drop off = (data.take t).drop off ++ data.drop (max t off) := by
+    by_cases hle : off ≤ t
+    · have : data = data.take t ++ data.drop t := (List.take_append_drop t data).symm
+      conv => lhs; rw [this]
+      rw [List.drop_append_of_le_length (by rw [List.length_take]; omega), Nat.max_eq_left hle]
+    · have h0 : (data.take t).drop off = [] := List.drop_eq_nil_of_le (by rw [List.length_take]; omega)
+      rw [h0, List.nil_append, Nat.max_eq_right (by omega)]
+  rcases readOneShape_stable o tg ((data.take t).drop off) (data.drop (max t off)) with hio | hext
+  · right
+    exact ⟨by simp only [entryOut]; rw [show (2 * e.offset).toNat = off from rfl, hio], hio⟩
+  · left
+    rw [← hsplit, hread] at hext
+    cases hb : readOneShape o tg ((data.take t).drop off) with
+    | ok a r' =>
+      rw [hb] at hext
+      simp only [Res.extend, Res.ok.injEq] at hext
+      obtain ⟨ha, hr'⟩ := hext
+      subst ha
+      have h12 := readOneShape_c12 o tg _ _ _ hb
+      have hlr := congrArg List.length hr'
+      simp only [List.length_append, List.length_drop, List.length_take] at hlr h12
+      refine ⟨by simp only [entryOut]; rw [show (2 * e.offset).toNat = off from rfl, hb], hoff, w, r', hb, hw, ?_⟩
+      simp only [List.length_take]
+      show off + 8 + (2 * w).toNat + r'.length = min t data.length
+      have : (2 * e.offset).toNat = off := rfl
+      omega
+    | err e' => rw [hb] at hext; simp [Res.extend] at hext
+    | panic s' => rw [hb] at hext; simp [Res.extend] at hext
+
+/-- ... and when the record lies wholly inside the retained bytes it IS returned: the decoders look
+at no byte they do not consume (`Local`) -/
+theorem whole_record_survives (o : Orient) (tg : Target) (data : Bytes) (e : IndexEntry) (s : Shape)
+    (w : Int) (rest : Bytes) (hoff : 0 ≤ e.offset)
+    (hread : readOneShape o tg (data.drop (2 * e.offset).toNat) = .ok (w, s) rest) (hw : 0 ≤ w)
+    (hlen : (2 * e.offset).toNat + 8 + (2 * w).toNat + rest.length = data.length)
+    (t : Nat) (ht : t ≤ data.length) (hend : (2 * e.offset).toNat + 8 + (2 * w).toNat ≤ t) :
+    entryOut o tg (data.take t) e = .shape s := by
+  let off := (2 * e.offset).toNat
+  have hsplit : data.drop off = (data.take t).drop off ++ data.drop t := by
+    have : data = data.take t ++ data.drop t := (List.take_append_drop t data).symm
+    conv => lhs; rw [this]
+    rw [List.drop_append_of_le_length (by rw [List.length_take]; have : (2 * e.offset).toNat = off := rfl; omega)]
+  rw [show (2 * e.offset).toNat = off from rfl, hsplit] at hread
+  obtain ⟨r', _, hb⟩ := (readOneShape_local o tg).2 _ _ _ _ hread (by
+    simp only [List.length_drop]; have : (2 * e.offset).toNat = off := rfl; omega)
+  simp only [entryOut]
+  rw [show (2 * e.offset).toNat = off from rfl, hb]
+
+/-- MAIN (any layout): a .shp whose index entries all point at decodable records — stored in any
+physical order, with any fillers — cut at ANY length `t` and read with its index: the reader opens
+(given the header survives) and the iteration yields, for every index entry in index order, that
+entry's own outcome: the record's shape, or the I/O error; never anything else, and the outcome of
+one entry does not depend on the others -/
+theorem truncated_any_layout (o : Orient) (tg : Target) (data shx : Bytes) (idx : List IndexEntry)
+    (shapes : List Shape) (h : Header) (rest xr : Bytes) (t : Nat) (ht : t ≤ data.length)
+    (hx : readIndexFile shx = .ok idx xr) (hh : readHeader (data.take t) = .ok h rest)
+    (ha : Addressable o tg data idx shapes) :
+    ∃ st, RState.open (data.take t) (some shx) = .ok st ∧
+      (st.iterAll o tg st.fuel).2 = idx.map (entryOut o tg (data.take t)) ∧
+      ∀ (i : Nat) (h1 : i < idx.length) (h2 : i < shapes.length),
+        entryOut o tg (data.take t) idx[i] = .shape shapes[i] ∨ entryOut o tg (data.take t) idx[i] = .err .io := by
+  obtain ⟨hlen, haddr⟩ := ha
+  have hent : ∀ (i : Nat) (h1 : i < idx.length) (h2 : i < shapes.length),
+      (entryOut o tg (data.take t) idx[i] = .shape shapes[i] ∧ RecordAt o tg (data.take t) idx[i] shapes[i]) ∨
+      (entryOut o tg (data.take t) idx[i] = .err .io ∧
+        readOneShape o tg ((data.take t).drop (2 * idx[i].offset).toNat) = .err .io) :=
+    fun i h1 h2 => truncated_entry o tg data idx[i] shapes[i] (haddr i h1 h2) t ht
+  unfold RState.open
+  simp only [hx, hh]
+  refine ⟨_, rfl, ?_, fun i h1 h2 => (hent i h1 h2).imp (·.1) (·.1)⟩
+  let outs := idx.map (entryOut o tg (data.take t))
+  have hinv : TInv o tg outs
+      { data := data.take t, srcPos := (data.take t).length - rest.length, header := h, index := some idx,
+        currentPos := some Const.headerSize, nextShape := 0 } := by
+    refine ⟨⟨idx, rfl, by simp [outs], ?_⟩, ?_⟩
+    · intro i h1 h2
+      have h2' : i < shapes.length := by omega
+      have hoff : 0 ≤ idx[i].offset := (haddr i h1 h2').1
+      simp only [outs, List.getElem_map]
+      rcases hent i h1 h2' with ⟨he, hr⟩ | ⟨he, hr⟩
+      · exact ⟨hoff, Or.inl ⟨_, he, hr⟩⟩
+      · exact ⟨hoff, Or.inr ⟨_, he, hr⟩⟩
+    · intro p hp
+      simp only [Option.some.injEq, Const.headerSize] at hp
+      have := readHeader_consumes (data.take t) h rest hh
+      simp only
+      omega
+  have hno : ∀ x ∈ outs, x ≠ ROut.none := by
+    intro x hx
+    simp only [outs, List.mem_map] at hx
+    obtain ⟨e, _, rfl⟩ := hx
+    simp only [entryOut]
+    split <;> simp
+  obtain ⟨st', hall, _, _⟩ := hinv.iterAll hno (RState.fuel _) 
+  rw [hall]
+  simp only [List.drop_zero]
+  apply List.take_of_length_le
+  simp only [outs, List.length_map, RState.fuel]
+  omega
+
+/-- the header of a file that opens also opens when the file is cut anywhere from byte 100 on -/
+theorem header_survives_cut (data : Bytes) (h : Header) (rest : Bytes) (hh : readHeader data = .ok h rest)
+    (t : Nat) (h100 : 100 ≤ t) (ht : t ≤ data.length) :
+    ∃ rest', readHeader (data.take t) = .ok h rest' := by
+  have hc := readHeader_consumes data h rest hh
+  have hsplit : data = data.take t ++ data.drop t := (List.take_append_drop t data).symm
+  rw [hsplit] at hh
+  obtain ⟨r', _, hb⟩ := readHeader_local.2 _ _ _ _ hh (by simp only [List.length_drop]; omega)
+  exact ⟨r', hb⟩
+
+/-- MAIN (any layout), without the hypothesis on the cut file's header: for every `t` from 100 to
+the file's length -/
+theorem truncated_any_layout' (o : Orient) (tg : Target) (data shx : Bytes) (idx : List IndexEntry)
+    (shapes : List Shape) (h : Header) (rest xr : Bytes) (t : Nat) (h100 : 100 ≤ t) (ht : t ≤ data.length)
+    (hx : readIndexFile shx = .ok idx xr) (hh : readHeader data = .ok h rest)
+    (ha : Addressable o tg data idx shapes) :
+    ∃ st, RState.open (data.take t) (some shx) = .ok st ∧
+      (st.iterAll o tg st.fuel).2 = idx.map (entryOut o tg (data.take t)) ∧
+      ∀ (i : Nat) (h1 : i < idx.length) (h2 : i < shapes.length),
+        entryOut o tg (data.take t) idx[i] = .shape shapes[i] ∨ entryOut o tg (data.take t) idx[i] = .err .io := by
+  obtain ⟨rest', hh'⟩ := header_survives_cut data h rest hh t h100 ht
+  exact truncated_any_layout o tg data shx idx shapes h rest' xr t ht hx hh' ha
 
 end Shp.C13
